@@ -4,6 +4,8 @@ package main
 // (structural clauses; DESIGN §3 C08).
 
 import (
+	"sort"
+	"go/token"
 	"fmt"
 	"go/constant"
 	"go/types"
@@ -133,10 +135,57 @@ func c08Client(c *Ctx, r *Report, ci *clientInfo, control bool) map[string]bool 
 	sum := ci.total.add(ci.n)
 	// ---- R8.1 ----
 	var sel *ssa.Select
+	var selAt ssa.Instruction // where the poll sits in the loop: the select, or the call of the helper that performs it
+	selFr := fr
+	origin := func(v ssa.Value) ssa.Value { return v }
 	for b := range ci.loop {
 		for _, in := range b.Instrs {
 			if s, ok := in.(*ssa.Select); ok {
-				sel = s
+				sel, selAt = s, s
+			}
+		}
+	}
+	if sel == nil {
+		// a poll helper of the module: straight-line, non-blocking, every execution passes its select
+		for b := range ci.loop {
+			for _, in := range b.Instrs {
+				call, ok := in.(*ssa.Call)
+				if !ok {
+					continue
+				}
+				callee := call.Common().StaticCallee()
+				ch := fr.child[call]
+				if callee == nil || ch == nil || !c.inModule(callee) || !nonBlockingHelper(c, callee, 1) {
+					continue
+				}
+				for _, hb := range callee.Blocks {
+					for _, hin := range hb.Instrs {
+						s, ok := hin.(*ssa.Select)
+						if !ok {
+							continue
+						}
+						all := true
+						for _, rb := range callee.Blocks {
+							if _, isRet := rb.Instrs[len(rb.Instrs)-1].(*ssa.Return); isRet && !hb.Dominates(rb) {
+								all = false
+							}
+						}
+						if all {
+							sel, selAt, selFr = s, call, ch
+							args := call.Common().Args
+							origin = func(v ssa.Value) ssa.Value {
+								if p, ok := v.(*ssa.Parameter); ok && p.Parent() == callee {
+									for i, q := range callee.Params {
+										if q == p && i < len(args) {
+											return args[i]
+										}
+									}
+								}
+								return v
+							}
+						}
+					}
+				}
 			}
 		}
 	}
@@ -146,16 +195,16 @@ func c08Client(c *Ctx, r *Report, ci *clientInfo, control bool) map[string]bool 
 		sp := c.pos(sel.Pos())
 		everyCycle := true
 		for _, p := range hdr.Preds {
-			if isBackEdge(p, hdr) && !sel.Block().Dominates(p) {
+			if isBackEdge(p, hdr) && !selAt.Block().Dominates(p) {
 				everyCycle = false
 			}
 		}
-		rep("R8.1", everyCycle && ci.loop[sel.Block()], "every cycle of the read loop passes the non-blocking select", "", "select-not-on-every-cycle", sp)
+		rep("R8.1", everyCycle && ci.loop[selAt.Block()], "every cycle of the read loop passes the non-blocking select", "", "select-not-on-every-cycle", sp)
 		doneOK, timerOK := false, false
 		for _, st := range sel.States {
-			if call, ok := st.Chan.(*ssa.Call); ok {
+			if call, ok := origin(st.Chan).(*ssa.Call); ok {
 				cm := call.Common()
-				if cm.IsInvoke() && cm.Method.Name() == "Done" && cm.Value == ci.do.Params[1] {
+				if cm.IsInvoke() && cm.Method.Name() == "Done" && origin(cm.Value) == ci.do.Params[1] {
 					doneOK = true
 				}
 				if callee := cm.StaticCallee(); callee != nil && callee.String() == "time.After" {
@@ -181,12 +230,12 @@ func c08Client(c *Ctx, r *Report, ci *clientInfo, control bool) map[string]bool 
 		rep("R8.1", timerOK, "the select polls the channel of one time.After(readTimeout) created before the loop", "", "select-timer", sp)
 		// the two cases return errors
 		ctxRet, toRet := false, false
-		idx, _ := fr.vals[selIndexExtract(sel)].(AInt)
-		for _, rs := range fr.returns {
-			if len(rs.state) == 0 || len(idx.a.terms) == 0 {
+		idx, _ := selFr.vals[selIndexExtract(sel)].(AInt)
+		for _, rs := range selFr.returns {
+			if len(rs.state) == 0 || len(idx.a.terms) == 0 || len(rs.vals) == 0 {
 				continue
 			}
-			cls := ci.errorClass(fr, rs.vals[1])
+			cls := ci.errorClass(selFr, rs.vals[len(rs.vals)-1])
 			if rs.state.entails(atomEQ(idx.a, affConst(0))) && cls == "ctx.Err" {
 				ctxRet = true
 			}
@@ -196,6 +245,21 @@ func c08Client(c *Ctx, r *Report, ci *clientInfo, control bool) map[string]bool 
 		}
 		rep("R8.1", ctxRet, "the ctx.Done() case returns ctx.Err()", "", "ctx-case", sp)
 		rep("R8.1", toRet, "the timeout case returns a *ClientError", "", "timeout-case", sp)
+		if selFr != fr && len(idx.a.terms) > 0 {
+			// the poll is a helper's: the exchange goes on only where neither case fired, and where one
+			// fired the helper's error is what do returns
+			rep("R8.1", ci.read.state.entails(atomLE(idx.a, affConst(-1))), "the Read is reached only when neither ctx.Done() nor the timeout fired", truncate(ci.read.state.String(), 200), "read-after-stop", posOfCall(c, ci.read))
+			fwd := false
+			for _, rs := range fr.returns {
+				if len(rs.state) == 0 || !rs.state.entails(atomGE(idx.a, affConst(0))) {
+					continue
+				}
+				if ch := ci.childOfCall(rs.vals[1]); ch == selFr {
+					fwd = true
+				}
+			}
+			rep("R8.1", fwd, "where the poll reports a stop, do returns the poll's error", "", "stop-not-returned", sp)
+		}
 	}
 	// ---- R8.2 ----
 	var calls []string
@@ -214,7 +278,7 @@ func c08Client(c *Ctx, r *Report, ci *clientInfo, control bool) map[string]bool 
 			}
 		case cr.callee != nil:
 			name = cr.callee.String()
-			if !loopAllowStatic[name] && cr.callee.Name() != "flush" {
+			if !loopAllowStatic[name] && cr.callee.Name() != "flush" && !(c.inModule(cr.callee) && nonBlockingHelper(c, cr.callee, 1)) {
 				okAllow = false
 				rep("R8.2", false, "the read loop calls "+name+", which is not on the allow-list of non-blocking operations", "", "blocking-call:"+name, posOfCall(c, cr))
 			}
@@ -311,6 +375,63 @@ func c08Client(c *Ctx, r *Report, ci *clientInfo, control bool) map[string]bool 
 			}
 		}
 	}
+	// a cause that was put into words is no longer there for errors.Is / errors.As: where the value
+	// stored as the cause of a *ClientError can be the result of fmt.Errorf, every error among its
+	// operands is wrapped with %w
+	{
+		fns := map[*ssa.Function]bool{ci.do: true, ci.Do: true}
+		for f := range visited {
+			fns[f.fn] = true
+		}
+		var fl []*ssa.Function
+		for f := range fns {
+			fl = append(fl, f)
+		}
+		sort.Slice(fl, func(i, j int) bool { return fl[i].String() < fl[j].String() })
+		for _, fn := range fl {
+			for _, b := range fn.Blocks {
+				for _, in := range b.Instrs {
+					st, ok := in.(*ssa.Store)
+					if !ok {
+						continue
+					}
+					fa, ok := st.Addr.(*ssa.FieldAddr)
+					if !ok {
+						continue
+					}
+					if n, ok := deref(fa.X.Type()).(*types.Named); !ok || n.Obj().Name() != "ClientError" {
+						continue
+					}
+					seen := map[ssa.Value]bool{}
+					var walk func(v ssa.Value)
+					walk = func(v ssa.Value) {
+						if v == nil || seen[v] {
+							return
+						}
+						seen[v] = true
+						switch x := v.(type) {
+						case *ssa.Phi:
+							for _, e := range x.Edges {
+								walk(e)
+							}
+						case *ssa.MakeInterface:
+							walk(x.X)
+						case *ssa.ChangeInterface:
+							walk(x.X)
+						case *ssa.Call:
+							if sc := x.Common().StaticCallee(); sc != nil && sc.String() == "fmt.Errorf" {
+								nerr, nw, constFmt := errorfOperands(x)
+								if nerr > 0 {
+									rep("R8.3", constFmt && nw >= nerr, "an error formatted into the cause of a *ClientError is wrapped (%w), not flattened into text", fmt.Sprintf("%d error operand(s), %d %%w verb(s)", nerr, nw), "cause-not-wrapped", c.pos(x.Pos()))
+								}
+							}
+						}
+					}
+					walk(st.Val)
+				}
+			}
+		}
+	}
 	// ---- R8.4 ----
 	var tooLong *ReturnSite
 	for _, site := range expandedReturns(fr, 0) {
@@ -377,4 +498,107 @@ func selIndexExtract(sel *ssa.Select) ssa.Value {
 		}
 	}
 	return sel
+}
+
+// nonBlockingHelper: fn is a loop-free function of the module that neither blocks (no blocking
+// select, send, receive, go) nor calls anything outside the read loop's allow-lists.
+func nonBlockingHelper(c *Ctx, fn *ssa.Function, depth int) bool {
+	if fn.Blocks == nil {
+		return false
+	}
+	for _, b := range fn.Blocks {
+		for _, p := range b.Preds {
+			if isBackEdge(p, b) {
+				return false
+			}
+		}
+		for _, in := range b.Instrs {
+			switch x := in.(type) {
+			case *ssa.Select:
+				if x.Blocking {
+					return false
+				}
+			case *ssa.Send, *ssa.Go, *ssa.Defer:
+				return false
+			case *ssa.UnOp:
+				if x.Op == token.ARROW {
+					return false
+				}
+			case *ssa.Call:
+				cm := x.Common()
+				switch {
+				case cm.IsInvoke():
+					if !loopAllowInvoke[cm.Method.Name()] {
+						return false
+					}
+				case cm.StaticCallee() != nil:
+					sc := cm.StaticCallee()
+					if _, isB := cm.Value.(*ssa.Builtin); isB {
+						continue
+					}
+					if !loopAllowStatic[sc.String()] && !(depth > 0 && c.inModule(sc) && nonBlockingHelper(c, sc, depth-1)) {
+						return false
+					}
+				default:
+					if _, isB := cm.Value.(*ssa.Builtin); !isB {
+						return false
+					}
+				}
+			}
+		}
+	}
+	return true
+}
+
+// errorfOperands: for a call of fmt.Errorf, the number of operands of error type, the number of
+// %w verbs in its format and whether the format is a constant.
+func errorfOperands(ci ssa.CallInstruction) (nerr, nw int, constFmt bool) {
+	args := ci.Common().Args
+	if len(args) == 0 {
+		return 0, 0, false
+	}
+	if k, ok := args[0].(*ssa.Const); ok && k.Value != nil && k.Value.Kind() == constant.String {
+		constFmt = true
+		nw = strings.Count(strings.ReplaceAll(constant.StringVal(k.Value), "%%", ""), "%w")
+	}
+	if len(args) < 2 {
+		return 0, nw, constFmt
+	}
+	errT := types.Universe.Lookup("error").Type().Underlying().(*types.Interface)
+	sl, ok := args[1].(*ssa.Slice)
+	if !ok {
+		return 0, nw, constFmt
+	}
+	refs := sl.X.Referrers()
+	if refs == nil {
+		return 0, nw, constFmt
+	}
+	for _, r := range *refs {
+		ia, ok := r.(*ssa.IndexAddr)
+		if !ok || ia.Referrers() == nil {
+			continue
+		}
+		for _, r2 := range *ia.Referrers() {
+			st, ok := r2.(*ssa.Store)
+			if !ok || st.Addr != ia {
+				continue
+			}
+			v := st.Val
+			for {
+				switch x := v.(type) {
+				case *ssa.MakeInterface:
+					v = x.X
+					continue
+				case *ssa.ChangeInterface:
+					v = x.X
+					continue
+				}
+				break
+			}
+			if types.Implements(v.Type(), errT) {
+				nerr++
+			}
+		}
+	}
+	return nerr, nw, constFmt
 }
